@@ -138,8 +138,14 @@ class Material(MaterialFile):
             ), axis=1
         )
 
-        # Sort by similarity score in ascending order
-        dfi = dfi.sort_values(by='similarity_score').reset_index(drop=True)
+        # Sort by similarity score in ascending order; among equal scores
+        # prefer rows whose name matches the query case-sensitively
+        dfi['case_mismatch'] = (
+            (dfi['name'] != self.name) & (dfi['category_name'] != self.name)
+        ).astype(int)
+        dfi = dfi.sort_values(
+            by=['similarity_score', 'case_mismatch'], kind='stable'
+        ).drop(columns='case_mismatch').reset_index(drop=True)
 
         # Warning if no exact matches found
         if dfi['similarity_score'].iloc[0] > 0:
